@@ -1651,7 +1651,11 @@ void CppCheck::executeAddonsWholeProgram(const std::list<FileWithDetails> &files
         std::ofstream fout(fileName);
         fout << ctuInfo;
         fout.close();
-        executeAddons({std::move(fileName)}, "");
+        try {
+            executeAddons({std::move(fileName)}, "");
+        } catch (const std::runtime_error &e) {
+            internalError("", std::string("Whole program analysis failed: ") + e.what());
+        }
         return;
     }
 
@@ -1666,7 +1670,11 @@ void CppCheck::executeAddonsWholeProgram(const std::list<FileWithDetails> &files
         ctuInfoFiles.push_back(getCtuInfoFileName(dumpFileName));
     }
 
-    executeAddons(ctuInfoFiles, "");
+    try {
+        executeAddons(ctuInfoFiles, "");
+    } catch (const std::runtime_error &e) {
+        internalError("", std::string("Whole program analysis failed: ") + e.what());
+    }
 }
 
 void CppCheck::tooManyConfigsError(const std::string &file, const int numberOfConfigurations)
